@@ -288,7 +288,7 @@ func genScenario(t *rapid.T, kind string) Scenario {
 	case "dgram":
 		n := rapid.IntRange(1, 6).Draw(t, "ndgram")
 		for i := 0; i < n; i++ {
-			s.Deltas = append(s.Deltas, rapid.SampledFrom([]int{0, 0, 1, 2, 3, 64, 500, 1 << 20}).Draw(t, "delta"))
+			s.Deltas = append(s.Deltas, rapid.SampledFrom([]int{0, 0, 1, 2, -1, -2, -3, 64, 500, 1 << 20}).Draw(t, "delta"))
 		}
 	case "idle":
 		s.ServerFirst = rapid.Bool().Draw(t, "server-first")
@@ -373,6 +373,13 @@ func checkCase(c Case, u *vf.Unit) *vf.Verdict {
 		}
 	})
 	return v
+}
+
+// simBubble runs f in a bubble of its own and reports leaked goroutines through *leak.
+func simBubble(f func(), leak **vf.Verdict) {
+	sim.Bubble(curT, 90*time.Second, f, func(rep sim.LeakReport) {
+		*leak = vf.Bad(sigLeak, "%d goroutines alive after shutdown:\n%s", rep.Count, rep.Dump)
+	})
 }
 
 func specID(c Case) string {
